@@ -158,6 +158,16 @@ CHECKS = {
             'Trusted: ev() in vf/props/c07.py. Spec(scope=) and Ref definitions as chain steps are wrapped in a 1-tuple '
             '(their visibility to later steps is not asserted). Bounds: depth <= 4, <= 3 children, names k, j, v.',
             'DESIGN.md section 4 / C07'),
+    'C08': ('Hypothesis-generated trees of mode wrappers and mode-sensitive probes vs per-mode reference readings (mode = '
+            'innermost syntactically enclosing wrapper); generated literal containers incl. cyclic ones x 13 positions '
+            '(Fill + 12 argument positions) vs a reference builder with graph-isomorphism comparison',
+            'Generated-input differential testing: on a self-similar target the Auto / Fill / Match / Group readings of a '
+            'probe give four different outcomes, so a mode that leaks to a later chain step, a sibling, or a Switch case is '
+            'visible; shape: same container types and shape, T/Spec/Val leaves replaced, strings/numbers kept, callables '
+            'called under Fill and kept in argument position, cyclic literals reproduced isomorphically and rebuilt.',
+            'Trusted: ev() and RefBuilder in vf/props/c08.py. Group wraps probes only; errors compared by category. '
+            'Bounds: wrapper nesting <= 3 (tree depth <= 4), literal depth <= 4.',
+            'DESIGN.md section 4 / C08'),
 }
 
 NOT_YET = 'check not built yet in this session (design in DESIGN.md section 4); will be claimed once its check is quiet on the unchanged tree'
